@@ -183,6 +183,8 @@ LEVEL_TEXT['C13'] += ' Added (unit fgresume): fg gives a live job the terminal b
 TECH['C13'] += ' + fg::resume_job_by_index / should_interrupt (ghost log of the opaque system and job-table calls)'
 LEVEL_TEXT['C05'] += ' Added (unit leaddot): the flag that switches the leading-period rejection off (Ast::starts_with_literal_dot) is set exactly for a pattern whose first atom is the literal character `.`.'
 TECH['C05'] += ' + Ast::starts_with_literal_dot'
+LEVEL_TEXT['C11'] += ' Added (unit trapbi): the trap built-in asks the table for exactly its action, once per condition operand, in order, overriding an initially ignored signal exactly in an interactive shell, and reports every refusal.'
+TECH['C11'] += ' + trap built-in Command::execute / set_action against a ghost log of the requests made to TrapSet::set_action'
 
 def main():
     checks = []
